@@ -141,11 +141,15 @@ P = {
    text="Coq theorems over RK.v/BiffRec.v: every 32-bit RK pattern decodes to the sign-extended 30-bit integer or the double whose "
         "top 30 bits are the payload, /100 honoured (C02_rk_int_all, C02_rk_float_all: two's complement over Z, not a sweep), "
         "decode . encode = id for every legal RK form, the forms cover all patterns, the i-th RkRec of a MULRK lands at "
-        "(row, col_first + i), BoolErr table with one-to-one error codes, cached formula values, and C02_xls_sheet_main: for every "
-        "logical sheet and every legal layout (record kind per value, MULRK grouping, ignorable records, DIMENSIONS) the model of the "
-        "sheet loop of parse_workbook + from_sparse returns range_of sheet — induction over items with fuel by record count. "
-        "Tie: hooks rk_num / record iterator / cell parsers on extracted encodings, malformed records (panic prediction) and "
-        "generated .xls files (BIFF8 in CFB) through Xls::new + worksheet_range.",
+        "(row, col_first + i), BoolErr table with one-to-one error codes, cached formula values, C02_string_continue_bytes, and "
+        "C02_xls_sheet_main, UNCONDITIONAL: for every logical sheet and every legal layout — record kind per value, MULRK grouping, "
+        "FORMULA [SHRFMLA|ARRAY|TABLE|any ignored record]* STRING [CONTINUE]* with per-fragment flag bytes, ROW/DBCELL/INDEX/BLANK/"
+        "MULBLANK records, both DIMENSIONS widths, cell records in ANY order — the model of the sheet loop of parse_workbook + "
+        "from_sparse returns range_of sheet (induction over items with fuel by record count). No known class (StringContinue "
+        "repaired in /repo by 64f46cd). Totality: C02_no_panic_sheet / _sheet_cells / _sheet_at / _records (every byte string at fuel "
+        "= length + 1: neither Panic nor OutOfFuel), _cell_record, _formula_value, _dimensions, C02_rk_num_panics_iff. Tie: hooks "
+        "rk_num / record iterator / cell parsers on extracted encodings, malformed records (outcome prediction) and generated .xls "
+        "files (BIFF8 in CFB) through Xls::new + worksheet_range.",
    note=TB + " C02_rk_int_float_x100_agree uses Flocq (the four classical axioms ClassicalDedekindReals.sig_not_dec, sig_forall_dec, "
         "FunctionalExtensionality.functional_extensionality_dep, Classical_Prop.classic); /100.0 and UTF-16 decoding are Section variables "
         "(hardware division cross-checked against extracted Flocq b64_div on every run). The formula token stream is C14's, strings C12's.",
@@ -321,7 +325,7 @@ def main():
 
 # properties whose model is being brought up to date with fix: commits that just landed in /repo (their check
 # reports the stale model as a broken correspondence until the resync is merged); emptied as the resyncs land
-STALE = {"C01", "C02", "C15", "C17"}
+STALE = {"C01", "C15", "C17"}
 STALE_REASON = ("temporarily not claimed: a shared model file this slice imports (Col26.v / Range.v) was just re-synchronised with the "
                 "hardened code and the slice's bridge lemmas are being re-proved against it; until that is merged the slice's proof "
                 "files do not all compile")
